@@ -49,6 +49,7 @@ const (
 	badVersion     = iota
 	badShortLength // the header's length field is shorter than the content: the message is cut mid-record
 	badUnknownTemplate
+	badRuntLength // the header's length field is smaller than the 16-byte header itself (0 or 15)
 	numBad
 )
 
@@ -87,6 +88,9 @@ func Check_Segmentation() {
 		case badUnknownTemplate:
 			bad = dataMsg(9, dataVals{1, []byte{1}})
 			bad[16], bad[17] = 0x03, 0x00 // set id 768: no such template
+		case badRuntLength:
+			bad = dataMsg(9, dataVals{1, []byte{1}})
+			bad[2], bad[3] = 0, []byte{0, 15}[sx.Choose("runtLength", 2)]
 		}
 		var ms [][]byte
 		ms = append(ms, msgs[:badAt]...)
@@ -109,7 +113,7 @@ func Check_Segmentation() {
 			}
 		}
 	}
-	conn := &common.FakeConn{ReadData: stream, Cuts: cuts}
+	conn := &common.FakeConn{ReadData: stream, Cuts: cuts, DeadlineTimeouts: true}
 	cp, err := collector.VerifNewCollectingProcess(collector.CollectorInput{Protocol: "tcp", Address: "x"}, nil, 16)
 	sx.Assert(err == nil, "init")
 	// another exporter of the same observation domain announced its template earlier
@@ -169,6 +173,56 @@ func Check_Segmentation() {
 	}
 }
 
+// Check_LargeMessage: a message larger than the 4096-byte default buffer of
+// bufio (and, thorough, one of the maximum size) between ordinary ones, cut
+// around the buffer boundary: every message is delivered, in order, from its
+// own bytes.
+func Check_LargeMessage() {
+	sizes := []int{4100, 4077, 4076}
+	if sx.Tier() > 0 {
+		sizes = append(sizes, 8200, 65000)
+	}
+	size := sizes[sx.Choose("largeStringLength", len(sizes))]
+	big := make([]byte, size)
+	head := sx.Bytes("bigHead", 2)
+	tail := sx.Bytes("bigTail", 2)
+	copy(big, head)
+	copy(big[size-2:], tail)
+	d := []dataVals{{sx.U32("v1"), big}, {sx.U32("v2"), sx.Bytes("s2", 1)}, {sx.U32("v3"), sx.Bytes("s3", 2)}}
+	msgs := [][]byte{templateMsg(), dataMsg(1, d[0]), dataMsg(2, d[1]), dataMsg(3, d[2])}
+	var stream []byte
+	for _, m := range msgs {
+		stream = append(stream, m...)
+	}
+	bigStart, bigEnd := len(msgs[0]), len(msgs[0])+len(msgs[1])
+	cutMenu := [][]int{nil, {bigStart + 1}, {4096}, {4097}, {bigEnd - 1}, {bigEnd}, {bigEnd + 1}, {bigStart + 3, 4096, bigEnd + 17}, {4095, bigEnd}}
+	cuts := cutMenu[sx.Choose("cuts", len(cutMenu))]
+	conn := &common.FakeConn{ReadData: stream, Cuts: cuts, DeadlineTimeouts: true}
+	cp, err := collector.VerifNewCollectingProcess(collector.CollectorInput{Protocol: "tcp", Address: "x"}, nil, 16)
+	sx.Assert(err == nil, "init")
+	cp.VerifHandleTCPClient(conn)
+	got := drain(cp)
+	sx.Assert(len(got) == 4, "large-message-stream-delivered-message-count")
+	for i, m := range got {
+		if i == 0 {
+			sx.Assert(m.GetSet().GetSetType() == entities.Template, "template-position")
+			continue
+		}
+		el := m.GetSet().GetRecords()[0].GetOrderedElementList()
+		sx.Assert(sx.And(m.GetSequenceNum() == uint32(i), el[0].GetUnsigned32Value() == d[i-1].v), "message-assembled-from-the-wrong-bytes")
+		sv := el[1].GetStringValue()
+		sx.Assert(len(sv) == len(d[i-1].s), "string-length")
+		if i == 1 {
+			sx.Assert(sx.And(sv[:2] == string(head), sv[size-2:] == string(tail)), "large-string-content")
+		} else {
+			sx.Assert(sv == string(d[i-1].s), "message-assembled-from-the-wrong-bytes")
+		}
+	}
+	sx.Assert(conn.Closed >= 1, "connection-not-closed")
+	sx.Reach("large-delivered")
+}
+
 var Table = map[string]runner.Entry{
+	"Check_LargeMessage": {Setup: Setup, Fn: Check_LargeMessage},
 	"Check_Segmentation": {Setup: Setup, Fn: Check_Segmentation},
 }
